@@ -62,6 +62,16 @@ contract(G + 'MetaGrid._tile_iter', props=['C11', 'C04'],
              """result[1][1] == (((y0 - y1) if self.grid.flipped_y_axis else (y1 - y0)) // msize(self, level, 1) + 1)""",
              'len(result[2]) == result[1][0] * result[1][1]',
              'forall(lambda m: implies(0 <= m < len(result[2]), result[2][m] == mi_elem(self, x0, y1, result[1][0], level, m)))',
+             # C03: the bbox handed out with the list is the rectangle of exactly these meta tiles - from the west edge of column x0
+             # to the east edge of the last column of the meta tile at x1, from the south edge of the southernmost row to the north
+             # edge of the northernmost one, for either origin (S48: on origin=ul grids meta_size_y - 1 rows were missing at the top
+             # and at the bottom)
+             'abs(result[0][0] - tb_x0(self.grid, x0, level)) <= 2e-12',
+             # (east and south edge in terms of the block that the list describes: w x h meta tiles from column x0 / top row y1)
+             'abs(result[0][2] - tb_x1(self.grid, x0 + result[1][0] * msize(self, level, 0) - 1, level)) <= 2e-12',
+             """abs(result[0][1] - tb_y0(self.grid, (y1 + result[1][1] * msize(self, level, 1) - 1) if self.grid.flipped_y_axis
+                                                     else (y1 - (result[1][1] - 1) * msize(self, level, 1)), level)) <= 2e-12""",
+             'abs(result[0][3] - tb_y1(self.grid, y1 if self.grid.flipped_y_axis else (y1 + msize(self, level, 1) - 1), level)) <= 2e-12',
          ],
          must_fail='result[1][0] == 1')
 
@@ -69,19 +79,19 @@ contract(G + 'MetaGrid.get_affected_level_tiles', props=['C11'],
          types=dict(bbox='tuple[real,real,real,real]', level='int'),
          returns='tuple[tuple[real,real,real,real],tuple[int,int],list[opt[tuple[int,int,int]]]]',
          requires=['meta_wf(self)', 'valid_level(self.grid, level)'],
-         raises={'GridError': 'bbox[2] - bbox[0] < self.grid.resolutions[level] or bbox[3] - bbox[1] < self.grid.resolutions[level]'},
+         raises={'GridError': 'bbox[2] - bbox[0] <= 0 or bbox[3] - bbox[1] <= 0'},        # S47: only rectangles without area
          ensures=[
              # the block of meta tiles between the meta tile of the south-west and of the north-east corner of the
              # bbox (inset by 1/10 pixel), row by row from the top: every meta tile that the rectangle reaches is listed
              'len(result[2]) == result[1][0] * result[1][1] and result[1][0] >= 1 and result[1][1] >= 1',
-             """result[1][0] == (malign(self, col_of(self.grid, bbox[2] - self.grid.resolutions[level] / 10, level), level, 0)
-                               - malign(self, col_of(self.grid, bbox[0] + self.grid.resolutions[level] / 10, level), level, 0)) // msize(self, level, 0) + 1""",
+             """result[1][0] == (malign(self, col_of(self.grid, bbox[2] - inset(self.grid, bbox, level), level), level, 0)
+                               - malign(self, col_of(self.grid, bbox[0] + inset(self.grid, bbox, level), level), level, 0)) // msize(self, level, 0) + 1""",
              """forall(lambda m: implies(0 <= m < len(result[2]), result[2][m] == mi_elem(self,
-                    malign(self, col_of(self.grid, bbox[0] + self.grid.resolutions[level] / 10, level), level, 0),
-                    malign(self, row_of(self.grid, bbox[3] - self.grid.resolutions[level] / 10, level), level, 1),
+                    malign(self, col_of(self.grid, bbox[0] + inset(self.grid, bbox, level), level), level, 0),
+                    malign(self, row_of(self.grid, bbox[3] - inset(self.grid, bbox, level), level), level, 1),
                     result[1][0], level, m)))""",
-             """result[1][1] == (abs(malign(self, row_of(self.grid, bbox[3] - self.grid.resolutions[level] / 10, level), level, 1)
-                                    - malign(self, row_of(self.grid, bbox[1] + self.grid.resolutions[level] / 10, level), level, 1)) // msize(self, level, 1) + 1)""",
+             """result[1][1] == (abs(malign(self, row_of(self.grid, bbox[3] - inset(self.grid, bbox, level), level), level, 1)
+                                    - malign(self, row_of(self.grid, bbox[1] + inset(self.grid, bbox, level), level), level, 1)) // msize(self, level, 1) + 1)""",
          ],
          must_fail='result[1][0] == 1')
 
